@@ -488,6 +488,20 @@ def _parallel_results_used(env):
     return m.ob_results_are_used(env)
 
 
+def _xpoint_markers(kind):
+    def body(env):
+        import harness.c08 as m   # resolved at call time
+        return m._mk_xpoint_markers(kind)(env)
+    return body
+
+
+for _k in ("lsn", "usn", "cdn", "ldn", "udn"):
+    OBLIGATIONS.append(Ob("corner_pinned_to_the_xpoint_on_its_own_flux_surface_" + _k, _xpoint_markers(_k), tier="quick", family="fillRZ",
+                          desc="the X-point marker that makes fillRZ pin a corner sits at the radial boundary on that X-point's separatrix (shared with C08)",
+                          encodes=["hypnotoad.cases.tokamak:TokamakEquilibrium.describeSingleNull", "hypnotoad.cases.tokamak:TokamakEquilibrium.describeDoubleNull"],
+                          bounds="real descriptors with symbolic sizes", max_paths=400))
+
+
 def _isolation(site):
     def body(env):
         import harness.c13 as m   # resolved at call time
